@@ -176,6 +176,16 @@ BDD_OP_MUTS = {
  'apply_cache_row_shared': (B, "    if A not in r_cache:\n        r_cache[A] = dict()", "    if A not in r_cache:\n        r_cache[A] = r_cache.get(B, dict())", ['apply']),
  'apply_cache_transposed': (B, "    if B in r_cache[A]:\n        return r_cache[A][B]", "    if B in r_cache[A] and A in r_cache[B]:\n        return r_cache[B][A]", ['apply']),
 }
+O = 'BDD/OBDD.py'
+BDD_OP_MUTS.update({
+ 'obdd_and_is_or': (O, "        return self.apply((lambda a, b: a and b), A)", "        return self.apply((lambda a, b: a or b), A)", ['OBDD.__and__']),
+ 'obdd_xor_is_or': (O, "        return self.apply((lambda a, b: a ^ b), A)", "        return self.apply((lambda a, b: a | b), A)", ['OBDD.__xor__']),
+ 'obdd_or_one_sided': (O, "        return self.apply((lambda a, b: a or b), A)", "        return self.apply((lambda a, b: a or a), A)", ['OBDD.__or__']),
+ 'obdd_ordering_test_flipped': (O, "        if self.ordering != B.ordering:", "        if self.ordering == B.ordering:", ['OBDD.apply']),
+ 'obdd_operands_swapped': (O, "        bdd = BDDapply(operator, self.root, B.root, self.ordering,", "        bdd = BDDapply(operator, B.root, self.root, self.ordering,", ['OBDD.apply']),
+ 'obdd_invert_identity': (O, "        return OBDD(~self.root, self.ordering)", "        return OBDD(self.root, self.ordering)", ['OBDD.__invert__']),
+ 'obdd_result_other_ordering': (O, "        return OBDD(bdd, self.ordering, check_ordering=False)", "        return OBDD(B.root, self.ordering, check_ordering=False)", ['OBDD.apply']),
+})
 
 BY_PROPERTY = {'C13': [GRAPH_MUTS], 'C14': [KRIPKE_MUTS], 'C01': [CTL_MUTS], 'C05': [REWRITE_MUTS], 'C16': [BDD_MUTS], 'C03': [CTLS_MUTS], 'C07': [CTLS_MUTS], 'C15': [FAIR_MUTS], 'C17': [BDD_OP_MUTS], 'C02': [LTL_MUTS], 'C10': [PARSER_MUTS]}
 # equivalent mutants (the change does not alter behaviour) are excluded from the requirement
